@@ -327,7 +327,11 @@ pub const INJECTED: &str = "cooksim-injected-fault";
 /// then the planned fault (if any) for this (seam kind, occurrence) of the
 /// current operation of the current task.
 pub fn seam(kind: SeamKind) {
-    if !in_sim() {
+    // never yield while this OS thread is unwinding: simulated tasks are coroutines on ONE OS
+    // thread, `std::thread::panicking()` is per OS thread, so a task switched in while another
+    // one is in the middle of an unwind would see `panicking() == true` - and every std lock
+    // guard it drops would poison its lock, which no real thread could observe.
+    if !in_sim() || std::thread::panicking() {
         return;
     }
     let t = task_id();
@@ -360,6 +364,12 @@ pub fn seam(kind: SeamKind) {
         shuttle::thread::sleep(std::time::Duration::ZERO);
     }
     match action {
+        // shadow build: shuttle treats any unwinding as the end of the test (a primitive released
+        // while `panicking()` is closed for good), so panics are not injected there - the normal
+        // build covers them
+        Some((SeamAction::Panic, _)) if cfg!(feature = "shadow") => {
+            fired("panic_not_injected_in_shadow_build");
+        }
         Some((SeamAction::Panic, _)) => {
             fired(match kind {
                 SeamKind::Iter => "iter_panic",
@@ -407,8 +417,23 @@ pub fn install_silent_panic_hook() {
             .location()
             .map(|l| format!("{}:{}", l.file(), l.line()))
             .unwrap_or_default();
+        // debugging aid: COOKSIM_PANIC_TRACE=1 prints every panic (injected ones included) with a backtrace
+        if std::env::var_os("COOKSIM_PANIC_TRACE").is_some() && !msg.contains(INJECTED) {
+            eprintln!("PANIC {msg} @ {loc}\n{}", std::backtrace::Backtrace::force_capture());
+        }
+        PANIC_SEEN.store(true, std::sync::atomic::Ordering::SeqCst);
         LAST_PANIC.with(|p| *p.borrow_mut() = Some(format!("{msg} @ {loc}")));
     }));
+}
+
+/// Set by every panic in this process. The shadow build must not trust anything that happens in
+/// the process after a panic unwound inside the simulation: shuttle closes a primitive that is
+/// released while `std::thread::panicking()` (its model of "the test is over"), and a closed lock
+/// excludes nobody afterwards. The worker discards the run and continues in a fresh process.
+pub static PANIC_SEEN: std::sync::atomic::AtomicBool = std::sync::atomic::AtomicBool::new(false);
+
+pub fn panic_seen() -> bool {
+    PANIC_SEEN.load(std::sync::atomic::Ordering::SeqCst)
 }
 
 pub fn take_last_panic() -> Option<String> {
